@@ -24,6 +24,7 @@ type kvInst struct {
 	ex    *executor.KVExecutor
 	dir   string
 	fault *faultDS // nil on badger
+	roots []string // state roots ExecuteTxs has returned so far
 }
 
 // RunKVExec drives two independent instances of the real KVExecutor (C15) with the same and with
@@ -143,8 +144,25 @@ func RunKVExec(c *Ctx) {
 					for j := range txs {
 						raw[j] = []byte(txs[j])
 					}
-					root, _, err := k.ex.ExecuteTxs(ctx, raw, uint64(h), time.Unix(int64(h), 0), nil)
+					// the previous state root the caller passes is its own business: none, the right one, a stale one
+					// (a node that replays old blocks), or bytes that never were a root - the result depends on none of them
+					var prev []byte
+					switch pm := rng.Intn(5); {
+					case pm == 1 && len(k.roots) > 0:
+						prev = []byte(k.roots[len(k.roots)-1])
+					case pm == 2 && len(k.roots) > 0:
+						prev = []byte(k.roots[rng.Intn(len(k.roots))])
+					case pm == 3:
+						prev = []byte("never-a-root")
+					case pm == 4 && len(k.roots) > 1:
+						prev = []byte(k.roots[0])
+					}
+					rec["prevmode"] = len(prev)
+					root, _, err := k.ex.ExecuteTxs(ctx, raw, uint64(h), time.Unix(int64(h), 0), prev)
 					rec["ok"], rec["root"] = err == nil, string(root)
+					if err == nil {
+						k.roots = append(k.roots, string(root))
+					}
 				case "final":
 					rec["ok"] = k.ex.SetFinal(ctx, uint64(h)) == nil
 				case "inject":
